@@ -36,10 +36,10 @@ RULE = ('Constraint sets in the documented format: (a) hand-built by the C02 '
         'precision-qualified bound or a non-ASCII / escape-bearing string, '
         'and >=1 verdict decided by data; distinct by case hash.')
 RULE += ' ' + "Also: the serialised text must say what the set given says (same fields in order, same kinds, same values, date bounds compared as instants); the file rewritten in place after a same-size decoy was loaded from the same path; the caller's dictionary unchanged after loading and verifying; relation names (lt, gte, eq ...) among the unknown kinds; microsecond values that are not exact binary fractions."
-ASSUMPTIONS = ['the text is compared for write/load cycles on the same path '
-               '(loading records the path as creation_metadata.tddafile, as '
-               'the command line does when it writes the file); across '
-               'different paths everything but that entry is compared',
+ASSUMPTIONS = ['the text written with to_json(tddafile=path) is compared for '
+               'write/load cycles on the same path and for a copy of the '
+               'file loaded from another path (the recorded name travels '
+               'with the file)',
                '+-inf bounds are not generated (not JSON)']
 
 NASTY_REX = [r'^\\d+"$', r"^it's$", r'^\\\\$', r'^[\\"\']+$', r'^a\\.b$',
@@ -130,7 +130,11 @@ def case_strategy(draw, tier):
             ['#', None], ['Min', 0], ['minimum', 5],
             # names of multi-field relations are not field constraint kinds
             ['lt', 5], ['gte', 1], ['eq', 'x'], ['lte', None], ['gt', 0],
-            ['constraint', 1], ['multi_field', 2]]),
+            ['constraint', 1], ['multi_field', 2],
+            # other spellings of standard kinds are other kinds
+            ['max-length', 0], ['no-duplicates', True], ['max-nulls', 0],
+            ['min-length', 99], ['allowed-values', []], ['MAX', -10**9],
+            ['max length', 0], ['maxLength', 0]]),
             min_size=1, max_size=3, unique_by=lambda kv: kv[0])),
     }
 
@@ -405,6 +409,13 @@ def run(case, ctx):
                         'reloaded from another path: %r vs %r'
                         % (strip_tddafile(tm)[:300],
                            strip_tddafile(t1)[:300]))
+        elif ok and tm != t1:
+            # the recorded name of the file travels with the file (copied,
+            # renamed, reached by another path): it is part of the text
+            out.violate('text-fixpoint', 'other-path:tddafile',
+                        'the copy at %s serialises with %r, the file says %r'
+                        % (path2, json.loads(tm).get('creation_metadata'),
+                           json.loads(t1).get('creation_metadata')))
     # verdict equality
     kw = dict(repair=False)
     variants = [('dict', copy.deepcopy(cons)), ('path', path),
